@@ -1096,3 +1096,65 @@ func isRangeLoopLit(l Lit) bool {
 	// the hidden index of a range loop, or a written index compared with a length
 	return strings.Contains(str, "rangeindex") || (strings.Contains(str, "φ") && strings.Contains(str, "len("))
 }
+
+// R09.14 a member of a received unit that panics fails the unit (F59)
+func ruleR09_14(w *World, r *Report) {
+	u := w.Client()
+	r.Rule("R09.14", "the function that ends a received unit is deferred, recovers a panic of a member itself, and on that edge marks the transaction failed before EndTransaction runs (so that what was applied of the unit is rolled back)", 1)
+	fn := u.Fn(pDatatypes, "TransactionDatatype", "ExecuteRemoteTransactionWithCtx")
+	if fn == nil {
+		r.Lost("TransactionDatatype.ExecuteRemoteTransactionWithCtx")
+		return
+	}
+	n := 0
+	forEachOwnInstr(fn, func(in ssa.Instruction) {
+		d, ok := in.(*ssa.Defer)
+		if !ok {
+			return
+		}
+		b := startedBody(&d.Call)
+		if b == nil || len(callsNamed(b, "EndTransaction")) == 0 {
+			return
+		}
+		n++
+		var rec *ssa.Call
+		forEachOwnInstr(b, func(x ssa.Instruction) {
+			if c, isC := x.(*ssa.Call); isC {
+				if bi, isB := c.Call.Value.(*ssa.Builtin); isB && bi.Name() == "recover" {
+					rec = c
+				}
+			}
+		})
+		good, why := rec != nil, "the deferred function does not call recover() itself"
+		if good {
+			good, why = false, "no SetTransactionFail on the edge recover() != nil before EndTransaction"
+			for _, f := range callsNamed(b, "SetTransactionFail") {
+				paths, okp := reachingLitsOwn(f.Parent(), nil, f.(ssa.Instruction))
+				under := okp && len(paths) > 0
+				for _, p := range paths {
+					g := false
+					for _, l := range p {
+						if isNilCheckOf(l, rec, false) {
+							g = true
+						}
+					}
+					under = under && g
+				}
+				before := false
+				for _, e := range callsNamed(b, "EndTransaction") {
+					if reachableFrom(f.(ssa.Instruction), e.(ssa.Instruction)) && !reachableFrom(e.(ssa.Instruction), f.(ssa.Instruction)) {
+						before = true
+					}
+				}
+				if under && before {
+					good = true
+				}
+			}
+		}
+		r.Check(good, "ExecuteRemoteTransactionWithCtx/panicking member fails the unit", u.Pos(d.Pos()), "recover, SetTransactionFail, then EndTransaction",
+			why+": a member of a received unit that decodes but cannot be executed panics in the middle of the unit, and the deferred EndTransaction commits the members applied so far - the replica keeps a part of the unit, neither all nor nothing (F59)")
+	})
+	if n == 0 {
+		r.Lost("ExecuteRemoteTransactionWithCtx: the deferred end of the unit")
+	}
+}
